@@ -568,13 +568,40 @@ func (cp *ClientPromise) Fulfill(c *Client) {
 		cp.h.refs += refs
 		cp.h.mu.Unlock()
 	case rh != nil:
+		// Walk to the hook the chain of resolutions ends in (as resolveHook
+		// does), holding the mutex of the hook the walk is at.  A chain that
+		// leads back to cp.h is a cycle: the promise would resolve to itself
+		// through other promises, and every walk over the chain would spin (or,
+		// here, lock cp.h.mu a second time).  Such a promise resolves to an
+		// error instead.
 		rh.mu.Lock()
-		rh = resolveHook(rh) // holds the mutex of the hook it returns
+		cycle := false
+		for rh.isResolved() && rh.resolvedHook != rh {
+			r := rh.resolvedHook
+			rh.mu.Unlock()
+			rh = r
+			if rh == nil {
+				break
+			}
+			if rh == cp.h {
+				cycle = true
+				break
+			}
+			rh.mu.Lock()
+		}
+		var ec *Client
+		if cycle {
+			ec = ErrorClient(newError("client promise resolved to itself"))
+			rh = ec.h
+			cp.h.resolvedHook = rh
+			rh.mu.Lock()
+		}
 		if rh != nil {
 			rh.refs += refs
 			rh.mu.Unlock()
 		}
 		cp.h.mu.Unlock()
+		ec.Release() // no-op unless the cycle was broken above
 	default:
 		cp.h.mu.Unlock()
 	}
